@@ -39,3 +39,16 @@ def execute(pycode, name='generated'):
     ctx = {'mibBuilder': mibBuilder}
     exec(compile(pycode, name, 'exec'), ctx, ctx)
     return ctx
+
+
+def execute_set(named_codes):
+    """run several generated pysnmp modules, in the given order, against ONE MibBuilder; returns {name: namespace}"""
+    from pysnmp.smi.builder import MibBuilder
+    mibBuilder = MibBuilder()
+    mibBuilder.loadTexts = True
+    out = {}
+    for name, code in named_codes:
+        ctx = {'mibBuilder': mibBuilder}
+        exec(compile(code, name, 'exec'), ctx, ctx)
+        out[name] = ctx
+    return out, mibBuilder
